@@ -11,6 +11,12 @@ NOTE_S = ("Trusted base: the vrewrite source rewriter and the vz shim packages (
 NOTE_E = ("Engine E runs the unmodified mangos code under the real Go scheduler and real OS transports: inputs, configurations and operation lists are enumerated exhaustively over the stated finite sets, goroutine schedules and kernel segmentation are not controlled; hang verdicts use generous watchdogs; the harness codecs/reference decoders are trusted.")
 
 claimed = {
+ "C17": ("stateless model checking of the rewritten real code with a message-ownership ledger (verif hooks in message.go: shadow reference counts, poison on release, poison check on reuse): exhaustive kind x send-outcome enumeration, retained-message scenarios and deviation-bounded schedule exploration of fan-out over inproc",
+         "Every Clone/Free/release/NewMessage of every message is observed by a ledger; per receiving kind the application keeps messages across further traffic of other sizes (buffers of every pool class are released, poisoned and reused) and re-checks, overwrites and frees them; per sending kind the outcomes success/timeout/closed/no-peers/best-effort are provoked and a failed Send must leave the message intact with exactly one owner; an application-cloned message must survive Send; NewMessage/Dup/MakeUnique shapes over the pool-class boundary sizes; PUB, BUS, STAR, SURVEY fan-out over inproc and REQ's retained request under loss/retry/reply histories are explored with the ledger on.",
+         "DESIGN.md §6 C17"),
+ "C19": ("bounded-exhaustive enumeration of option name x value x object kind x connection state on the unmodified code over all transports (engine E), each case in a worker subprocess with replay confirmation",
+         "41 option names (documented, transport specific, arbitrary) x 23 values (wrong types, nil, negative, zero, boundary, huge) on all 24 sockets, 5 context kinds, dialers and listeners of 6 transports and attached pipes, before and after connecting: no panic, no hang, unsupported name => ErrBadOption, wrong type/out of range => ErrBadValue, Get returns what Set accepted, socket options inherited by later dialers/listeners and (where the pattern provides it) contexts, accepted zero durations mean no limit, queue resizes on connected idle/loaded sockets never detach the peer and traffic still flows, unsupported operations and Device misuse give the designated error without side effect.",
+         "DESIGN.md §6 C19"),
  "C10": ("stateless model checking of the rewritten real code: deviation-bounded exploration of Close against blocked Send/Recv on all 24 socket kinds and contexts, exhaustive listener/dialer/pipe/hook histories ending in socket Close, each followed by a resource census (threads by creation site, timers, connections, listening addresses, pipe ids, pipe lists)",
          "For every socket constructor (and context) calls are blocked in Recv and Send, Close runs concurrently and is placed at every scheduling point within the bound: every blocked call returns the closed error, Close returns, later Send/Recv/Dial/Listen/OpenContext/Close fail promptly; histories over listen, async dial (ok/refused), peer connect, hook-close, peer drop, close of listener/dialer/pipe, clock advance end with socket Close, an hour of virtual time and a census that must be empty.",
          "DESIGN.md §6 C10"),
@@ -61,7 +67,7 @@ claimed.update({
          "For all 12 protocol numbers (24 socket types) and both roles the first 8 bytes mangos writes are compared with the SP header; every single-byte deviation of the peer header (8x255) and every wrong-but-well-formed protocol number must be refused while a following good peer is accepted; frames mangos writes are parsed by an independent codec (8-byte BE length, 0x01 on IPC, header||body) and codec-written frames, split at every prefix position, must be delivered intact; WebSocket subprotocol negotiation and one-binary-frame-per-message are checked with a hand-written RFC 6455 endpoint.",
          "DESIGN.md §6 C15"),
 })
-ENGINE_OF = {"C01": "E", "C15": "E"}
+ENGINE_OF = {"C01": "E", "C15": "E", "C19": "E", "C20": "E"}
 not_applicable = {}
 ALL = [f"C{i:02d}" for i in range(1, 21)]
 for pid in ALL:
